@@ -61,6 +61,14 @@ def fwa_term(x):
             "kw": [{"k": k, "v": term(v)} for k, v in x.get("kw", [])], "ctx": [{"k": k, "v": term(v)} for k, v in x.get("ctx", [])]}
 
 
+FINITE_LEAVES = [x for x in LEAVES if not (x["t"] == "float" and x["v"] in ("nan", "inf", "-inf"))]
+_POOL = [None]
+
+
+def rv(r, depth):
+    return rand_value(r, depth, _POOL[0])
+
+
 def rand_fwa(r, depth=2):
     name = r.choice(["s1", "s2", "s3", "s4"])
     params = PARAMS[name]
@@ -70,7 +78,7 @@ def rand_fwa(r, depth=2):
         bound = ["a"]
     if name == "s4" and r.random() < 0.5:
         bound = ["x", "y"]
-    vals = {p: rand_value(r, depth) for p in bound}
+    vals = {p: rv(r, depth) for p in bound}
     npos = r.randint(0, len([p for p in bound if p != "k"]))
     pos = [p for p in bound if p != "k"][:npos]
     if pos and r.random() < 0.3:
@@ -81,11 +89,13 @@ def rand_fwa(r, depth=2):
         used = 0
     args = [vals[p] for p in pos]
     kw = [[p, vals[p]] for p in bound if p not in ([q for q in bound if q != "k"][:npos])]
-    ctx = [["k", rand_value(r, 0)]] if r.random() < 0.3 else []
+    ctx = [["k", rv(r, 0)]] if r.random() < 0.3 else []
     return {"fn": fn, "args": args, "kw": kw, "ctx": ctx}
 
 
 def rand_memento(r, i):
+    # non-finite floats (open finding C11-nonfinite-float-argument-not-plain-json) are confined to every 10th memento
+    _POOL[0] = LEAVES if i % 10 == 0 else FINITE_LEAVES
     m = {"time": r.choice(TIMES), "fwa": rand_fwa(r), "invs": [rand_fwa(r, 1) for _ in range(r.randint(0, 3))],
          "res": [{"rtype": "file", "url": "file:///tmp/res %d#x" % j, "version": str(1600000000000 + j)} for j in range(r.randint(0, 2))],
          "runtime": r.choice(["0.0", "123.0", "0.000123", "86400.5", "1e-06"]), "rtype": r.choice(RTYPES),
